@@ -35,12 +35,12 @@ theorem boundaryOk_iff {s : State} {cs : List Char} (h : Holds s cs) (i : Nat) :
   unfold boundaryOk; rw [h.2]; exact isCharBoundary_iff cs i
 
 /-- UTF-8 level outcome of a growing operation (see `GrowsTo`) -/
-def GrowsToText (fixed : Bool) (s : State) (need : Nat) (r : Res Unit) (out : List Char) : Prop :=
-  if fixed = true ∧ s.cap - s.len < need then r = .err s
-  else ∃ s', r = .ok () s' ∧ Holds s' out ∧ (fixed = true → s'.cap = s.cap)
+def GrowsToText (al : Alloc) (s : State) (need : Nat) (r : Res Unit) (out : List Char) : Prop :=
+  if al.isFixed = true ∧ s.cap - s.len < need then r = .err s
+  else ∃ s', r = .ok () s' ∧ Holds s' out ∧ CapAfter al s need s'.cap
 
-theorem GrowsTo.text {fixed : Bool} {s : State} {need : Nat} {r : Res Unit} {out : Bytes} {cs : List Char}
-    (h : GrowsTo fixed s need r out) (ho : out = encode cs) : GrowsToText fixed s need r cs := by
+theorem GrowsTo.text {al : Alloc} {s : State} {need : Nat} {r : Res Unit} {out : Bytes} {cs : List Char}
+    (h : GrowsTo al s need r out) (ho : out = encode cs) : GrowsToText al s need r cs := by
   unfold GrowsTo at h; unfold GrowsToText
   split
   · rename_i hc; rw [if_pos hc] at h; exact h
@@ -56,25 +56,25 @@ def AllWF {α : Type} : Res α → Prop
   | .panic s => WF s
   | .fault => False
 
-theorem GrowsToText.allWF {fixed : Bool} {s : State} {need : Nat} {r : Res Unit} {out : List Char}
-    (h : GrowsToText fixed s need r out) (hs : WF s) : AllWF r := by
+theorem GrowsToText.allWF {al : Alloc} {s : State} {need : Nat} {r : Res Unit} {out : List Char}
+    (h : GrowsToText al s need r out) (hs : WF s) : AllWF r := by
   unfold GrowsToText at h
   split at h
   · rw [h]; exact hs
   · obtain ⟨s', hr, hh, _⟩ := h; rw [hr]; exact hh.wf
 
-theorem GrowsToText.not_panic {fixed : Bool} {s : State} {need : Nat} {r : Res Unit} {out : List Char}
-    (h : GrowsToText fixed s need r out) : r.isPanic = false := by
+theorem GrowsToText.not_panic {al : Alloc} {s : State} {need : Nat} {r : Res Unit} {out : List Char}
+    (h : GrowsToText al s need r out) : r.isPanic = false := by
   unfold GrowsToText at h
   split at h
   · rw [h]; rfl
   · obtain ⟨s', hr, _, _⟩ := h; rw [hr]; rfl
 
 /-- a growable string never reports an allocation error -/
-theorem GrowsToText.growable {s : State} {need : Nat} {r : Res Unit} {out : List Char}
-    (h : GrowsToText false s need r out) : ∃ s', r = .ok () s' ∧ Holds s' out := by
+theorem GrowsToText.growable {al : Alloc} {s : State} {need : Nat} {r : Res Unit} {out : List Char}
+    (h : GrowsToText al s need r out) (hg : al.isFixed = false) : ∃ s', r = .ok () s' ∧ Holds s' out := by
   unfold GrowsToText at h
-  rw [if_neg (by simp)] at h
+  rw [if_neg (by simp [hg])] at h
   obtain ⟨s', hr, hh, _⟩ := h
   exact ⟨s', hr, hh⟩
 
@@ -89,41 +89,41 @@ theorem encodeChar_of_size_one (ch : Char) (h : ch.utf8Size = 1) : encodeChar ch
   simp only [Char.toNat_val]
   rw [if_pos (by omega)]
 
-theorem push_spec (fixed : Bool) (s : State) (ch : Char) (cs : List Char) (h : Holds s cs) :
-    GrowsToText fixed s ch.utf8Size (push fixed s ch) (cs ++ [ch]) := by
+theorem push_spec (al : Alloc) (s : State) (ch : Char) (cs : List Char) (h : Holds s cs) :
+    GrowsToText al s ch.utf8Size (push al s ch) (cs ++ [ch]) := by
   unfold push
   split
   · rename_i h1
     have he := encodeChar_of_size_one ch h1
     rw [← he]
-    have := appendBytes_spec fixed s (encodeChar ch) h.1
+    have := appendBytes_spec al s (encodeChar ch) h.1
     rw [encodeChar_length] at this
     exact this.text (cs := cs ++ [ch]) (by rw [h.2, encode_append, encode_singleton])
-  · have := appendBytes_spec fixed s (encodeChar ch) h.1
+  · have := appendBytes_spec al s (encodeChar ch) h.1
     rw [encodeChar_length] at this
     exact this.text (cs := cs ++ [ch]) (by rw [h.2, encode_append, encode_singleton])
 
-theorem pushStr_spec (fixed : Bool) (s : State) (t cs : List Char) (h : Holds s cs) :
-    GrowsToText fixed s (encode t).length (pushStr fixed s (encode t)) (cs ++ t) := by
+theorem pushStr_spec (al : Alloc) (s : State) (t cs : List Char) (h : Holds s cs) :
+    GrowsToText al s (encode t).length (pushStr al s (encode t)) (cs ++ t) := by
   unfold pushStr
-  exact (appendBytes_spec fixed s (encode t) h.1).text (cs := cs ++ t) (by rw [h.2, encode_append])
+  exact (appendBytes_spec al s (encode t) h.1).text (cs := cs ++ t) (by rw [h.2, encode_append])
 
 /-! ## insert, insert_str -/
 
-theorem insertStr_spec (fixed : Bool) (s : State) (idx : Nat) (t cs1 cs2 : List Char)
+theorem insertStr_spec (al : Alloc) (s : State) (idx : Nat) (t cs1 cs2 : List Char)
     (h : Holds s (cs1 ++ cs2)) (hi : (encode cs1).length = idx) :
-    GrowsToText fixed s (encode t).length (insertStr fixed s idx (encode t)) (cs1 ++ t ++ cs2) := by
+    GrowsToText al s (encode t).length (insertStr al s idx (encode t)) (cs1 ++ t ++ cs2) := by
   unfold insertStr
   have hb : boundaryOk s idx = true := (boundaryOk_iff h idx).2 ⟨cs1, cs2, rfl, hi⟩
   rw [hb]
   simp only [Bool.not_true, Bool.false_eq_true, ↓reduceIte]
   have hle : idx ≤ s.len := by rw [h.len, encode_append, List.length_append]; omega
-  refine (insertBytes_spec fixed s idx (encode t) h.1 hle).text (cs := cs1 ++ t ++ cs2) ?_
+  refine (insertBytes_spec al s idx (encode t) h.1 hle).text (cs := cs1 ++ t ++ cs2) ?_
   rw [h.2, encode_append, encode_append, encode_append, ← hi]
   simp
 
-theorem insertStr_panic (fixed : Bool) (s : State) (idx : Nat) (str : Bytes) (cs : List Char)
-    (h : Holds s cs) (hi : ¬ CharPos cs idx) : insertStr fixed s idx str = .panic s := by
+theorem insertStr_panic (al : Alloc) (s : State) (idx : Nat) (str : Bytes) (cs : List Char)
+    (h : Holds s cs) (hi : ¬ CharPos cs idx) : insertStr al s idx str = .panic s := by
   unfold insertStr
   have hb : boundaryOk s idx = false := by
     cases hbb : boundaryOk s idx with
@@ -131,16 +131,16 @@ theorem insertStr_panic (fixed : Bool) (s : State) (idx : Nat) (str : Bytes) (cs
     | true => exact absurd ((boundaryOk_iff h idx).1 hbb) hi
   rw [hb]; rfl
 
-theorem insert_spec (fixed : Bool) (s : State) (idx : Nat) (ch : Char) (cs1 cs2 : List Char)
+theorem insert_spec (al : Alloc) (s : State) (idx : Nat) (ch : Char) (cs1 cs2 : List Char)
     (h : Holds s (cs1 ++ cs2)) (hi : (encode cs1).length = idx) :
-    GrowsToText fixed s ch.utf8Size (insert fixed s idx ch) (cs1 ++ [ch] ++ cs2) := by
-  have := insertStr_spec fixed s idx [ch] cs1 cs2 h hi
+    GrowsToText al s ch.utf8Size (insert al s idx ch) (cs1 ++ [ch] ++ cs2) := by
+  have := insertStr_spec al s idx [ch] cs1 cs2 h hi
   simp only [insertStr, encode_singleton, encodeChar_length] at this
   exact this
 
-theorem insert_panic (fixed : Bool) (s : State) (idx : Nat) (ch : Char) (cs : List Char)
-    (h : Holds s cs) (hi : ¬ CharPos cs idx) : insert fixed s idx ch = .panic s :=
-  insertStr_panic fixed s idx (encodeChar ch) cs h hi
+theorem insert_panic (al : Alloc) (s : State) (idx : Nat) (ch : Char) (cs : List Char)
+    (h : Holds s cs) (hi : ¬ CharPos cs idx) : insert al s idx ch = .panic s :=
+  insertStr_panic al s idx (encodeChar ch) cs h hi
 
 /-! ## pop, truncate, clear -/
 
@@ -322,10 +322,10 @@ theorem drain_panic (s : State) (sb eb : Bound) (k : Nat) (cs : List Char) (h : 
 
 /-! ## replace_range, extend_from_within -/
 
-theorem replaceRange_ok (fixed : Bool) (s : State) (sb eb : Bound) (t : List Char) (a b : Nat)
+theorem replaceRange_ok (al : Alloc) (s : State) (sb eb : Bound) (t : List Char) (a b : Nat)
     (cs1 cs2 cs3 : List Char) (h : Holds s (cs1 ++ cs2 ++ cs3)) (hr : sliceRange sb eb s.len = some (a, b))
     (ha : (encode cs1).length = a) (hb : (encode (cs1 ++ cs2)).length = b) :
-    GrowsToText fixed s ((encode t).length - (encode cs2).length) (replaceRange fixed s sb eb (encode t))
+    GrowsToText al s ((encode t).length - (encode cs2).length) (replaceRange al s sb eb (encode t))
       (cs1 ++ t ++ cs3) := by
   obtain ⟨h1, h3, h2, hab, hbl⟩ := bytes_split3 h ha hb
   have hba : boundaryOk s a = true := (boundaryOk_iff h a).2 ⟨cs1, cs2 ++ cs3, by simp, ha⟩
@@ -333,13 +333,13 @@ theorem replaceRange_ok (fixed : Bool) (s : State) (sb eb : Bound) (t : List Cha
   have hl : (encode cs2).length = b - a := by
     rw [← hb, ← ha, encode_append, List.length_append]; omega
   rw [hl]
-  exact (replaceRange_bytes fixed s sb eb (encode t) a b h.1 hr hba hbb).text (cs := cs1 ++ t ++ cs3)
+  exact (replaceRange_bytes al s sb eb (encode t) a b h.1 hr hba hbb).text (cs := cs1 ++ t ++ cs3)
     (by rw [h1, h3, encode_append, encode_append])
 
-theorem replaceRange_panic (fixed : Bool) (s : State) (sb eb : Bound) (str : Bytes) (cs : List Char) (h : Holds s cs)
+theorem replaceRange_panic (al : Alloc) (s : State) (sb eb : Bound) (str : Bytes) (cs : List Char) (h : Holds s cs)
     (hp : sliceRange sb eb s.len = none ∨
           ∃ a b, sliceRange sb eb s.len = some (a, b) ∧ (¬ CharPos cs a ∨ ¬ CharPos cs b)) :
-    replaceRange fixed s sb eb str = .panic s := by
+    replaceRange al s sb eb str = .panic s := by
   unfold replaceRange
   rcases hp with hn | ⟨a, b, hr, hab⟩
   · rw [hn]
@@ -353,23 +353,23 @@ theorem replaceRange_panic (fixed : Bool) (s : State) (sb eb : Bound) (str : Byt
       rw [(boundaryOk_iff h a).2 ha, boundaryOk_false h hb]; rfl
     · rw [boundaryOk_false h ha]; rfl
 
-theorem extendFromWithin_ok (fixed : Bool) (s : State) (sb eb : Bound) (a b : Nat)
+theorem extendFromWithin_ok (al : Alloc) (s : State) (sb eb : Bound) (a b : Nat)
     (cs1 cs2 cs3 : List Char) (h : Holds s (cs1 ++ cs2 ++ cs3)) (hr : sliceRange sb eb s.len = some (a, b))
     (ha : (encode cs1).length = a) (hb : (encode (cs1 ++ cs2)).length = b) :
-    GrowsToText fixed s (encode cs2).length (extendFromWithin fixed s sb eb) (cs1 ++ cs2 ++ cs3 ++ cs2) := by
+    GrowsToText al s (encode cs2).length (extendFromWithin al s sb eb) (cs1 ++ cs2 ++ cs3 ++ cs2) := by
   obtain ⟨h1, h3, h2, hab, hbl⟩ := bytes_split3 h ha hb
   have hba : boundaryOk s a = true := (boundaryOk_iff h a).2 ⟨cs1, cs2 ++ cs3, by simp, ha⟩
   have hbb : boundaryOk s b = true := (boundaryOk_iff h b).2 ⟨cs1 ++ cs2, cs3, rfl, hb⟩
   have hl : (encode cs2).length = b - a := by
     rw [← hb, ← ha, encode_append, List.length_append]; omega
   rw [hl]
-  exact (extendFromWithin_bytes fixed s sb eb a b h.1 hr hba hbb).text (cs := cs1 ++ cs2 ++ cs3 ++ cs2)
+  exact (extendFromWithin_bytes al s sb eb a b h.1 hr hba hbb).text (cs := cs1 ++ cs2 ++ cs3 ++ cs2)
     (by rw [h2, h.2, encode_append (cs1 ++ cs2 ++ cs3)])
 
-theorem extendFromWithin_panic (fixed : Bool) (s : State) (sb eb : Bound) (cs : List Char) (h : Holds s cs)
+theorem extendFromWithin_panic (al : Alloc) (s : State) (sb eb : Bound) (cs : List Char) (h : Holds s cs)
     (hp : sliceRange sb eb s.len = none ∨
           ∃ a b, sliceRange sb eb s.len = some (a, b) ∧ (¬ CharPos cs a ∨ ¬ CharPos cs b)) :
-    extendFromWithin fixed s sb eb = .panic s := by
+    extendFromWithin al s sb eb = .panic s := by
   unfold extendFromWithin
   rcases hp with hn | ⟨a, b, hr, hab⟩
   · rw [hn]
@@ -482,5 +482,142 @@ theorem splitOff_asis_empty (s : State) (sb eb : Bound) (a : Nat)
   simp only [hr]
   rw [if_neg hl, if_neg h0]
   simp
+
+/-! ## the panic condition of the range operations -/
+
+/-- the panic condition shared by the range operations: the range does not resolve (bound
+    overflow, start > end, end > len) or one of its ends is not on a character boundary -/
+def RangeBad (cs : List Char) (sb eb : Bound) (len : Nat) : Prop :=
+  sliceRange sb eb len = none ∨ ∃ a b, sliceRange sb eb len = some (a, b) ∧ (¬ CharPos cs a ∨ ¬ CharPos cs b)
+
+theorem rangeBad_or_split (cs : List Char) (sb eb : Bound) (len : Nat) :
+    RangeBad cs sb eb len ∨
+    ∃ a b cs1 cs2 cs3, sliceRange sb eb len = some (a, b) ∧ cs = cs1 ++ cs2 ++ cs3 ∧
+      (encode cs1).length = a ∧ (encode (cs1 ++ cs2)).length = b := by
+  cases hr : sliceRange sb eb len with
+  | none => exact Or.inl (Or.inl hr)
+  | some p =>
+    obtain ⟨a, b⟩ := p
+    by_cases ha : CharPos cs a
+    · by_cases hb : CharPos cs b
+      · obtain ⟨c1, c2, c3, he, h1, h2⟩ := charPos_split3 ha hb (sliceRange_some hr).1
+        exact Or.inr ⟨a, b, c1, c2, c3, rfl, he, h1, h2⟩
+      · exact Or.inl (Or.inr ⟨a, b, hr, Or.inr hb⟩)
+    · exact Or.inl (Or.inr ⟨a, b, hr, Or.inl ha⟩)
+
+theorem not_rangeBad_of_split {cs : List Char} {sb eb : Bound} {len a b : Nat} {cs1 cs2 cs3 : List Char}
+    (hr : sliceRange sb eb len = some (a, b)) (he : cs = cs1 ++ cs2 ++ cs3)
+    (ha : (encode cs1).length = a) (hb : (encode (cs1 ++ cs2)).length = b) : ¬ RangeBad cs sb eb len := by
+  rintro (hn | ⟨a', b', hr', hp⟩)
+  · rw [hn] at hr; simp at hr
+  · rw [hr] at hr'
+    simp only [Option.some.injEq, Prod.mk.injEq] at hr'
+    obtain ⟨rfl, rfl⟩ := hr'
+    rcases hp with hp | hp
+    · exact hp ⟨cs1, cs2 ++ cs3, by rw [he, List.append_assoc], ha⟩
+    · exact hp ⟨cs1 ++ cs2, cs3, he, hb⟩
+
+
+/-! ## capacity: reserve, reserve_exact, with_capacity, from_str -/
+
+/-- NO growth is requested from the allocator while the spare room suffices -/
+theorem reserve_no_grow (al : Alloc) (s : State) (n : Nat) (h : n ≤ s.cap - s.len) : reserve al s n = some s := by
+  unfold reserve; rw [if_pos (by simpa [State.cap] using h)]
+
+theorem reserveExact_no_grow (al : Alloc) (s : State) (n : Nat) (h : n ≤ s.cap - s.len) :
+    reserveExact al s n = some s := by
+  unfold reserveExact; rw [if_pos (by simpa [State.cap] using h)]
+
+/-- `reserve(n)`: the contents are untouched, afterwards at least `n` spare bytes (the promise),
+    capacity as `CapAfter`; a fixed string without the room fails -/
+theorem reserveOp_spec (al : Alloc) (s : State) (n : Nat) (cs : List Char) (h : Holds s cs) :
+    if al.isFixed = true ∧ s.cap - s.len < n then reserveOp al s n = .err s
+    else ∃ s', reserveOp al s n = .ok () s' ∧ Holds s' cs ∧ n ≤ s'.cap - s'.len ∧ CapAfter al s n s'.cap := by
+  unfold reserveOp
+  match hr : reserve al s n with
+  | none =>
+    have := reserve_none_iff.1 hr
+    rw [if_pos (by simpa [State.cap] using this)]
+  | some s1 =>
+    have hn : ¬ (al.isFixed = true ∧ s.cap - s.len < n) := by
+      intro hc
+      have := (reserve_none_iff (a := al) (s := s) (n := n)).2 (by simpa [State.cap] using hc)
+      rw [this] at hr; simp at hr
+    rw [if_neg hn]
+    obtain ⟨hlen, hb, hcap, hw, hca⟩ := reserve_some h.1 hr
+    exact ⟨s1, rfl, ⟨hw, by rw [hb, h.2]⟩, by simp only [State.cap]; omega, hca⟩
+
+/-- `reserve_exact(n)`: like `reserve`, but a growing `BumpString` gets exactly `len + n` -/
+theorem reserveExactOp_spec (al : Alloc) (s : State) (n : Nat) (cs : List Char) (h : Holds s cs) :
+    if al.isFixed = true ∧ s.cap - s.len < n then reserveExactOp al s n = .err s
+    else ∃ s', reserveExactOp al s n = .ok () s' ∧ Holds s' cs ∧ n ≤ s'.cap - s'.len ∧
+      (n ≤ s.cap - s.len → s' = s) ∧ (s.cap - s.len < n → al = .exact → s'.cap = s.len + n) := by
+  have hw := h.1
+  unfold WFL at hw
+  unfold reserveExactOp reserveExact
+  by_cases hle : n ≤ s.buf.length - s.len
+  · rw [if_pos hle, if_neg (by simp only [State.cap]; omega)]
+    exact ⟨s, rfl, h, by simp only [State.cap]; omega, fun _ => rfl, fun hlt => by simp only [State.cap] at hlt; omega⟩
+  · rw [if_neg hle]
+    cases al with
+    | fixed => simp only [growTo]; rw [if_pos ⟨rfl, by simp only [State.cap]; omega⟩]; trivial
+    | exact =>
+      simp only [growTo]
+      rw [if_neg (by simp [Alloc.isFixed])]
+      refine ⟨_, rfl, ⟨by unfold WFL; simp; omega, ?_⟩, by simp [State.cap]; omega,
+        fun hx => by simp only [State.cap] at hx; omega, fun _ _ => by simp [State.cap]; omega⟩
+      simp only [State.bytes]; rw [List.take_append_of_le_length hw]; exact h.2
+    | atLeast g =>
+      simp only [growTo]
+      rw [if_neg (by simp [Alloc.isFixed])]
+      refine ⟨_, rfl, ⟨by unfold WFL; simp; omega, ?_⟩, by simp [State.cap]; omega,
+        fun hx => by simp only [State.cap] at hx; omega, fun _ hx => by simp at hx⟩
+      simp only [State.bytes]; rw [List.take_append_of_le_length hw]; exact h.2
+
+/-- `with_capacity(c)`: empty, capacity at least `c` (exactly `c` unless the arena grants more) -/
+theorem withCapacity_spec (al : Alloc) (c : Nat) :
+    Holds (withCapacity al c) [] ∧ c ≤ (withCapacity al c).cap ∧
+      ((∀ g, al ≠ .atLeast g) → (withCapacity al c).cap = c) := by
+  unfold withCapacity
+  by_cases h0 : c = 0
+  · subst h0; simp [Holds, WFL, State.bytes, State.cap]
+  · rw [if_neg h0]
+    cases al with
+    | fixed => simp [Holds, WFL, State.bytes, State.cap]
+    | exact => simp [Holds, WFL, State.bytes, State.cap]
+    | atLeast g =>
+      refine ⟨⟨by simp [WFL], by simp [State.bytes]⟩, by simp [State.cap]; omega, fun hx => absurd rfl (hx g)⟩
+
+/-- `from_str_in(text)`: holds the text, `len ≤ capacity`; a `BumpString` gets exactly `len` bytes -/
+theorem fromStr_spec (al : Alloc) (cs : List Char) :
+    Holds (fromStr al (encode cs)) cs ∧ ((∀ g, al ≠ .atLeast g) → (fromStr al (encode cs)).cap = (encode cs).length) := by
+  obtain ⟨_, hc, he⟩ := withCapacity_spec al (encode cs).length
+  unfold fromStr
+  simp only [State.cap] at hc he ⊢
+  refine ⟨⟨by unfold WFL; simp, by simp [State.bytes]⟩, fun hx => ?_⟩
+  have := he hx
+  simp only [List.length_append, List.length_drop]; omega
+
+/-- a run of `push_str`s that fits into the spare room (e.g. the room a `reserve` / `with_capacity`
+    promised) never reallocates: the capacity is the same after every one of them -/
+theorem pushStr_many_no_realloc (al : Alloc) (ts : List (List Char)) (s : State) (cs : List Char) (h : Holds s cs)
+    (hfit : (ts.map fun t => (encode t).length).sum ≤ s.cap - s.len) :
+    ∃ s', ts.foldl (fun (r : Option State) t => r.bind fun s => (pushStr al s (encode t)).state?) (some s) = some s' ∧
+      Holds s' (cs ++ ts.flatten) ∧ s'.cap = s.cap := by
+  induction ts generalizing s cs with
+  | nil => exact ⟨s, rfl, by simpa using h, rfl⟩
+  | cons t ts ih =>
+    simp only [List.map_cons, List.sum_cons] at hfit
+    have hp := pushStr_spec al s t cs h
+    unfold GrowsToText at hp
+    rw [if_neg (by omega)] at hp
+    obtain ⟨s1, hr, hh, hca⟩ := hp
+    have hc1 : s1.cap = s.cap := hca.1 (by omega)
+    have hl1 : s1.len = s.len + (encode t).length := by
+      rw [hh.len, h.len, encode_append, List.length_append]
+    obtain ⟨s', hf, hh', hc'⟩ := ih s1 (cs ++ t) hh (by rw [hc1, hl1]; omega)
+    refine ⟨s', ?_, by simpa using hh', by rw [hc', hc1]⟩
+    simp only [List.foldl_cons, Option.bind_some, hr, Res.state?]
+    exact hf
 
 end Str
